@@ -36,6 +36,9 @@ def _rdim(rng, hi):
 def _rmap(rng, hi):
     m = _rdim(rng, hi)
     n = m if rng.random() < 0.3 else _rdim(rng, hi)
+    if rng.random() < (0.004 if hi <= 8 else 0.02):
+        # a realistically large map: header fields above 255 / 32767 / 65535, multi-line text records
+        m, n = rng.choice([(130, 140), (260, 70), (200, 200), (37, 300), (1, 70000 // 4)])
     return {"shape": [m, n], "seed": rng.getrandbits(32),
             "vals": rng.choice(["mixed", "mixed", "pos", "neg", "const", "zero", "tiny", "huge", "pos_big", "neg_big"]),
             "nan": rng.choice(["none", "none", "scatter", "rows", "all", "edge"]),
@@ -744,6 +747,11 @@ def execute(plan):
                 data0 = spans[0][0] if spans else L
                 stride = max(1, int(op.get("header_stride", 97)))
                 offs = sorted(set(list(range(0, data0, stride)) + list(range(max(0, data0 - 2), L + 1))))
+                if len(offs) > 1500:
+                    # large file: the neighbourhood of both ends of the data block plus an even subsample
+                    keep = set(offs[:40] + offs[-300:] + [o for o in offs if data0 - 2 <= o <= data0 + 40])
+                    step_ = max(1, len(offs) // 600)
+                    offs = sorted(keep | set(offs[::step_]))
                 outs = {}
                 for kk in offs:
                     w.disk.files[path] = full[:kk]
